@@ -239,7 +239,24 @@ def run(ctx):
         probs = []
         for t_ in tails:
             vals = [t_] + [hirq.strip(v_) for v_ in hirq.value_leaves(rsf.hir["body"], t_) if v_ is not None]
-            is_sum = lambda e: e.get("k") == "mcall" and e["m"] in ("sum", "fold") and "fields" in hirq.render(e["recv"]) and "size" in hirq.render(e["recv"])
+            def is_sum(e):
+                if e.get("k") != "mcall" or "fields" not in hirq.render(e["recv"]):
+                    return False
+                if e["m"] == "sum":
+                    return "size" in hirq.render(e["recv"])
+                if e["m"] == "fold" and len(e.get("args") or []) == 2 and hirq.const_int(e["args"][0]) == 0:
+                    # fold(0, |acc, f| acc + f.size()): the closure adds exactly one size per field and nothing else
+                    cl = hirq.strip(e["args"][1])
+                    if cl.get("k") != "closure":
+                        return False
+                    b = hirq.strip(cl["body"])
+                    while b.get("k") == "block" and not b.get("stmts") and b.get("e") is not None:
+                        b = hirq.strip(b["e"])
+                    pn = [x for p_ in cl.get("params", []) or [] for x in hirq.pat_binds(p_)]
+                    if b.get("k") == "bin" and b["op"] == "+" and len(pn) == 2:
+                        l_, r_ = hirq.render(b["l"]), hirq.render(b["r"])
+                        return (l_ == pn[0] and re.fullmatch(r"%s\.size\(\)" % re.escape(pn[1]), r_) is not None) or (r_ == pn[0] and re.fullmatch(r"%s\.size\(\)" % re.escape(pn[1]), l_) is not None)
+                return False
             if not any(is_sum(v_) for v_ in vals):
                 probs.append("`%s` is not the sum of the field sizes" % hirq.render(t_)[:50])
             for v_ in vals:
